@@ -442,7 +442,7 @@ theorem removeEdges_noSingle (rr rt : Bool) : ∀ (ids : List Int) (t : T), t.no
     obtain ⟨d, p, k⟩ := t
     simp only [T.noSingle, T.kids_node] at h
     simp only [T.noSingle, Gotree.C07.contractT_kids]
-    exact (Gotree.C07.contractL_ns rr rt id _ k h).1
+    exact (Gotree.C07.contractL_ns _ rt id _ k h).1
 
 /- ## Clone (model and lemmas of C15: a clone is the tree with every parent position reset) -/
 
